@@ -18,7 +18,7 @@ EXPLANATION = (
     "crate's validators are trusted.")
 # every anchor of these rules lives in the h3 crate: thorough tier repeats them on the feature-less build
 EXTRA_CONFIGS = ["h3-plain"]
-RULES = "C12-a field gate (A11/A2); C12-b message gates (A3/A2); C12-c refusal class (A3); C12-d sending order and values, CONNECT pseudo-header table (A2/A4/A3); shared through a proxy: the malformed-message rows of C07-a under C12-c"
+RULES = "C12-a field gate (A11/A2); C12-b message gates, Field::parse gets the decoded line's own name and value (A3/A2/A4); C12-c refusal class (A3); C12-d sending order and values, CONNECT pseudo-header table (A2/A4/A3); shared through a proxy: the malformed-message rows of C07-a under C12-c"
 
 H = "h3::proto::headers::"
 
